@@ -38,16 +38,23 @@ def name_identity(name: int):
     }
 
 
+def _claim_bounds():
+    d = canboat.db().by_key["60928/isoAddressClaim"]
+    return {f.id: gen.raw_bounds(f) for f in d.fields if f.type == "NUMBER"}
+
+
 @st.composite
 def names(draw):
-    mfg = draw(st.sampled_from([m for m, _ in MANUFACTURERS[:-1]]))
-    return iso_name(draw(st.integers(0, 0x1FFFFE)), mfg, draw(st.integers(0, 6)), draw(st.integers(0, 30)),
-                    draw(st.sampled_from([130, 140, 150, 160, 170])), draw(st.sampled_from([25, 30, 35, 40, 60, 75])),
-                    draw(st.integers(0, 14)), 4, draw(st.integers(0, 1)))
+    """64-bit NAMEs whose number fields lie inside the database ranges of PGN 60928 (so the claim itself is decodable)."""
+    b = _claim_bounds()
+    mfg = draw(st.sampled_from([m for m, _ in MANUFACTURERS]))
+    return iso_name(draw(st.integers(*b["uniqueNumber"])), mfg, draw(st.integers(*b["deviceInstanceLower"])),
+                    draw(st.integers(*b["deviceInstanceUpper"])), draw(st.sampled_from([130, 140, 150, 160, 170])),
+                    draw(st.sampled_from([25, 30, 35, 40, 60, 75])), draw(st.integers(*b["systemInstance"])), 4, draw(st.integers(0, 1)))
 
 
 @st.composite
-def history(draw, min_msgs=4, max_msgs=14, sources=(1, 2, 3, 9), claims=True, single_keys=SINGLE_KEYS, fast_keys=FAST_KEYS, junk=False):
+def history(draw, min_msgs=4, max_msgs=14, sources=(1, 2, 3, 9), claims=True, single_keys=SINGLE_KEYS, fast_keys=FAST_KEYS, junk=False, name_pool=None):
     """List of frame items with fast-packet frames of different messages interleaved."""
     database = canboat.db()
     n = draw(st.integers(min_msgs, max_msgs))
@@ -58,18 +65,18 @@ def history(draw, min_msgs=4, max_msgs=14, sources=(1, 2, 3, 9), claims=True, si
         kind = draw(st.sampled_from(kinds))
         src = draw(st.sampled_from(sources))
         if kind == "claim":
-            nm = draw(names())
+            nm = draw(names()) if not name_pool else draw(st.sampled_from(name_pool))
             msgs.append([{"kind": "claim", "pgn": 60928, "src": src, "dest": 255, "data": nm.to_bytes(8, "little"), "msg": mi, "name": nm}])
         elif kind == "single":
             d = database.by_key[draw(st.sampled_from(single_keys))]
             p, nb, _ = draw(gen.payloads(d, mode="accepted", extra_bytes=False))
-            dest = 255 if ((d.pgn >> 8) & 0xFF) >= 240 else draw(st.sampled_from([255, 7]))
+            dest = 255 if ((d.pgn >> 8) & 0xFF) >= 240 else draw(st.sampled_from([255, 7] + list(sources)))
             msgs.append([{"kind": "single", "pgn": d.pgn, "src": src, "dest": dest, "data": p.to_bytes(nb, "little")[:8], "msg": mi, "def": d.key}])
         elif kind == "fast":
             d = database.by_key[draw(st.sampled_from(fast_keys))]
             p, nb, _ = draw(gen.payloads(d, mode="accepted", extra_bytes=False))
             payload = p.to_bytes(nb, "little")[:223]
-            dest = 255 if ((d.pgn >> 8) & 0xFF) >= 240 else draw(st.sampled_from([255, 7]))
+            dest = 255 if ((d.pgn >> 8) & 0xFF) >= 240 else draw(st.sampled_from([255, 7] + list(sources)))
             k = (d.pgn, src, dest)
             seq = draw(st.integers(0, 7).filter(lambda x, k=k: x != seqs.get(k)))
             seqs[k] = seq
